@@ -504,9 +504,12 @@ class Gen:
             elif mk < 0.85 and getattr(self, "strings", True):
                 m["type"] = T("string", ref=False)
                 m["init"] = '"init"'
-            else:
+            elif getattr(self, "arrays", True):
                 m["type"] = T("int", c="int")
                 m["array"] = r.choice([2, 3, 4])
+                m["init"] = "5"
+            else:
+                m["type"] = T("int", c="int")
                 m["init"] = "5"
             x = r.random()
             if x < 0.15 and not m["array"] and m["type"]["k"] == "int":
@@ -864,11 +867,12 @@ class Lib:
 
 
 def generate(rng, name="liba", size=1.0, docs=True, native=False, prior=None, dep_bases=(), n_classes=None,
-             adversarial=False, strings=True, ordering=False, oddities=False):
+             adversarial=False, strings=True, ordering=False, oddities=False, arrays=True):
     g = Gen(rng, name, size=size, docs=docs, native=native, prior=prior)
     g.strings = strings
     g.ordering = ordering
     g.oddities = oddities
+    g.arrays = arrays
     g.generate(n_classes=n_classes, dep_bases=dep_bases)
     return Lib(g)
 
